@@ -250,8 +250,9 @@ let handle_suppressed (n : int) (k : int) (hdr : string list) (cells : string li
   let cells = List.map cell_of_tok cells in
   let batches = chunks n cells in
   let nb = List.length batches in
-  (* the code as found (F60): the hidden aggregate of a call inside an analytic function reads the bare column *)
-  let asis = List.mapi (fun j (_, f, m, sh) -> inline_field_asis f (m = MStar) (nested j) sh) fields in
+  (* the code (F60 repaired): the hidden aggregate of a call inside an analytic function carries its argument expression *)
+  let _ = nested in
+  let asis = List.map (fun (_, f, m, sh) -> inline_field f (m = MStar) sh) fields in
   let mds = sel_run asis (sel_init asis) batches in
   (* expected rows: (window, per call: Some model value if changed) *)
   let expected =
